@@ -17,6 +17,8 @@ import IoosQc.Model.Fx
 import IoosQc.Model.Defaults
 import IoosQc.Model.Tests
 import IoosQc.Model.Config
+import IoosQc.Model.Streams
+import IoosQc.Theorems.C05
 set_option linter.unusedSimpArgs false
 set_option linter.unusedVariables false
 
@@ -360,6 +362,46 @@ theorem C07_pin_layout (chain : List Pin.LayoutTest) (dk : String) (h : (chain, 
     (knownMod : String → Bool) (known : String → String → Bool) (cfg : J) :
     Pin.configCallsWith knownMod known dk chain cfg = configCalls knownMod known "_stream" cfg := by
   cases h; exact Pin.configCallsWith_chain knownMod known "_stream" cfg
+
+/-! ### The window comparisons of the three stream front ends -/
+
+namespace Pin
+
+/-- A comparison operator as written in the source (`column OP bound`). -/
+inductive Cmp where | ge | gt | le | lt
+  deriving DecidableEq, Repr
+
+def Cmp.eval : Cmp → Int → Int → Bool
+  | .ge, t, b => decide (b ≤ t)
+  | .gt, t, b => decide (b < t)
+  | .le, t, b => decide (t ≤ b)
+  | .lt, t, b => decide (t < b)
+
+/-- The row mask of a front end that narrows an all-True mask with `t OPs starting` (when given) and `t OPe ending` (when given). -/
+def maskWith (ops : Cmp × Cmp) (w : Window) (ts : List Int) : List Bool :=
+  ts.map fun t =>
+    (match w.starting with | some a => ops.1.eval t a | none => true) &&
+    (match w.ending with | some b => ops.2.eval t b | none => true)
+
+theorem maskWith_spec (w : Window) (ts : List Int) : maskWith (.ge, .lt) w ts = specMask w ts := by
+  unfold maskWith specMask inWindow
+  cases w.starting <;> cases w.ending <;> simp [Cmp.eval]
+
+end Pin
+
+/-- The comparison operators read from the window code of PandasStream, NumpyStream and XarrayStream (each front end: the operator
+    applied to `starting` and the one applied to `ending`) are `>=` and `<`: every front end selects `starting <= t < ending`. -/
+theorem C05_pin_window (fes : List (Pin.Cmp × Pin.Cmp)) (h : fes = [(.ge, .lt), (.ge, .lt), (.ge, .lt)])
+    (w : Window) (ts : List Int) : ∀ ops ∈ fes, Pin.maskWith ops w ts = specMask w ts := by
+  subst h
+  intro ops hops
+  simp only [List.mem_cons, List.mem_nil_iff, or_false, or_self] at hops
+  subst hops
+  exact Pin.maskWith_spec w ts
+
+/-- an inclusive `ending` (or an exclusive `starting`) is not the property's window -/
+example : Pin.maskWith (.ge, .le) ⟨some 10, some 20⟩ [9, 10, 20, 21] ≠ specMask ⟨some 10, some 20⟩ [9, 10, 20, 21] := by decide
+example : Pin.maskWith (.gt, .lt) ⟨some 10, some 20⟩ [9, 10, 20, 21] ≠ specMask ⟨some 10, some 20⟩ [9, 10, 20, 21] := by decide
 
 theorem C14_pin_default_bbox (b : List Rat) (h : b = Defaults.locationBBox) (lon lat : List V) (r : Option Rat) (hops : List V) :
     locationTest lon lat ⟨true, b⟩ r hops = locationTest lon lat ⟨true, [-180, -90, 180, 90]⟩ r hops := by
